@@ -296,7 +296,7 @@ def run(ck):
     quick = ck.tier == "quick"
     for r in core.pmap("vf.props.c13:pinned", [{}]):
         ck.merge(r)
-    n = 1200 if quick else 20000
+    n = 3600 if quick else 20000
     specs = [{"name": f"vfm13_{ck.seed}_{i}", "seed": f"C13:{ck.seed}:{i}", "nfuncs": ck.rng("n", i).choice([6, 10, 14]), "k": [0, 0, 3][i % 3],
               "real": i % 5 != 0, "cli": i % 4 == 1, "rewriter": "DEFAULT" if i % 3 == 1 else "NoOpRewriter", "history": i % 6 == 2} for i in range(n)]
     kk = core.NPROC * (2 if quick else 8)
